@@ -174,6 +174,19 @@ public:
         return start;
     }
 
+    /**
+     * Writes a character of a comment or a processing instruction, where
+     * a character reference would not be recognized.
+     */
+    size_type
+    writeNoCharRef(
+            const value_type    chars[],
+            size_type           start,
+            size_type           length)
+    {
+        return write(chars, start, length);
+    }
+
     void
     writeSafe(
             const XalanDOMChar*     theChars,
